@@ -256,6 +256,9 @@ var c11Templates = []string{
 	`[{"op":"add","path":"/a","value":[1,2]},{"op":"remove","path":"/b"}]`,
 	`[{"op":"move","from":"/a","path":"/b"}]`,
 	` [ { "op" : "test" , "path" : "" , "value" : { "k" : null } } ] `,
+	// escape sequences in a member name, in path and in a value: a byte inserted after a backslash, or into the
+	// four hex digits, makes an escape the grammar does not have
+	"[{\"op\":\"add\",\"path\":\"/a\\nb\",\"v\\\\\":0,\"value\":\"x\\\"y\\" + "u00e9\"}]",
 }
 
 // H_DecodePatch_Template: a valid patch document with k unconstrained bytes inserted at any position: if the
